@@ -180,7 +180,7 @@ def build_and_run(pid, runs, verdict, ncrates=16, grace_ms=0, extra_run_fields=N
                 line = line.rstrip("\n")
                 if not line:
                     continue
-                if line.startswith('{"ev":"reset"'):
+                if '"ev":"reset"' in line[:80]:
                     cur = []
                     traces.append(cur)
                 cur.append(line)
